@@ -23,7 +23,7 @@ def validate(spec, cfg, traces, workdir, shards=4, env_var="TRACE_FILE", timeout
     def one(item):
         k, (path, n) = item
         meta = os.path.join(workdir, f"meta_trace_{k}")
-        cmd = ["java", "-XX:+UseSerialGC", "-Xmx4g", "-Xss64m", "-cp", JAR, "tlc2.TLC", "-workers", "1", "-metadir", meta,
+        cmd = ["java", "-XX:+UseSerialGC", "-Xmx4g", "-Xss64m", f"-Djava.io.tmpdir={workdir}", "-cp", JAR, "tlc2.TLC", "-workers", "1", "-metadir", meta,
                "-noGenerateSpecTE", "-config", os.path.join(SPEC, cfg), os.path.join(SPEC, spec)]
         e = dict(os.environ); e[env_var] = path
         p = subprocess.run(cmd, capture_output=True, text=True, env=e, cwd=SPEC, timeout=timeout)
